@@ -23,10 +23,19 @@ func init() {
 		Rules:       []RuleRef{{ID: "D2"}, {ID: "D3"}, {ID: "D7"}, {ID: "T2"}},
 	})
 	defProp(&Prop{ID: "C03", Title: "Snapshot round trip",
-		Explanation: stance,
+		Explanation: stance + "Decided clauses: (1) every concrete type handlers store as a value is reproduced with the same dynamic type by the snapshot codec (E8); (2) the restore callbacks store data.Value and data.ExpireAt for the same key and database, the state callbacks copy every database and key (RC); (3) the expired-key filter removes exactly entries whose non-zero deadline is before now (X3 on FilterExpiredKeys); (4) the automatic trigger fires when the change count is at or above the threshold and not below (TR); (5) LASTSAVE is published only after the snapshot is durable and named in the manifest (D6 d); (6) the state copy runs under the store lock (L1 on getState).",
+		Decides:     []string{"E8 codec table agreement", "RC restore/state callbacks", "X3 expired-key filter orientation", "TR automatic trigger", "D6(d) last-save after publish", "L1 state copy under the store lock"},
+		NotCovered:  []string{"equality of the restored dataset with the dataset at the snapshot instant (needs execution)", "timing of the snapshot interval"},
+		Rules: []RuleRef{{ID: "E8"}, {ID: "RC"}, {ID: "X3", Scope: []string{"internal.FilterExpiredKeys"}, Floor: 1}, {ID: "TR"},
+			{ID: "D6", Scope: []string{"|d:lastsave", "|e:writer-reader"}, Floor: 2}, {ID: "L1", Scope: []string{"sugardb.(*SugarDB).getState|"}, Floor: 1}},
+		Tech: "static analysis: type-flow table of stored dynamic types vs a model of encoding/json; SSA dataflow identity; abstract evaluation over orderings",
 	})
 	defProp(&Prop{ID: "C04", Title: "Expiry",
-		Explanation: stance,
+		Explanation: stance + "Decided clauses: every read primitive of the keyspace reports an entry only on the 'deadline not passed' edge of an expiry test of that entry, with the right orientation and the zero deadline treated as alive (X1); every expiry-driven removal (background sampler, lazy deletion, snapshot filter) happens only on the 'deadline has passed' edge (X3); setValues does not carry over a deadline that has already passed (X4); EXPIRE/PEXPIRE/EXPIREAT/PEXPIREAT set the deadline and reply exactly as documented for option x current-deadline x ordering (X5); PERSIST / zero deadlines leave the volatile index (A3).",
+		Decides:     []string{"X1 expired keys unobservable through KeysExist/GetValues/GetExpiry/Randomkey", "X3 only expired keys are removed by expiry", "X4 no inherited expired deadline", "X5 EXPIRE-family option table (36 cases)", "A3 volatile index membership"},
+		NotCovered:  []string{"TTL/PTTL/EXPIRETIME arithmetic", "SET EX/PX/EXAT/PXAT and GETEX option parsing (value-level)", "timing of background expiry"},
+		Rules:       []RuleRef{{ID: "X1"}, {ID: "X3"}, {ID: "X4"}, {ID: "X5"}, {ID: "A3", Scope: []string{"volatile-index-append"}, Floor: 1}},
+		Tech:        "static analysis: must-facts on SSA CFG edges generated by expiry atoms (deadline.Before(now) etc.), abstract path evaluation over a finite ordering domain",
 	})
 	defProp(&Prop{ID: "C05", Title: "Commands are atomic",
 		Explanation: stance + "Decided clauses: every access to a guarded structure (store, memory counter, volatile-key index, per-database caches and their heaps, connection table, command list, ACL users/connections/globs, pub/sub tables, AOF handles) happens with its lock held in a sufficient mode on every call chain from every root (L1); the lock-order graph is acyclic modulo gate locks and no non-reentrant lock is re-acquired (L2); in-progress flags are cleared on every exit (D8); a command that takes more than one keyspace step holds a command-scoped lock across them (L4) and does not mutate stored objects in place outside the keyspace lock (P3).",
@@ -44,18 +53,23 @@ func init() {
 	})
 	defProp(&Prop{ID: "C07", Title: "Replication",
 		Explanation: stance + "Decided clauses: only the dispatcher and the raft FSM invoke command handlers; in a cluster a synced command is never applied locally, raft apply happens only on the leader, forwarding only when enabled, otherwise the client gets an error (D4); every handler that can mutate the keyspace is Sync, i.e. replicated (T2).",
-		Decides:     []string{"D4 cluster guard and routing", "T2 mutators are Sync"},
+		Decides:     []string{"D4 cluster guard and routing", "T2 mutators are Sync", "DT synced handlers reach no random source / clock", "N1+N3 the request's database and protocol reach the replicated request and the FSM's handler context", "E8 raft snapshot codec", "NM+RC raft state callback"},
 		NotCovered:  []string{"convergence after quiescence, ordering inside hashicorp/raft, leadership changes (library behaviour over histories)"},
-		Rules:       []RuleRef{{ID: "D4"}, {ID: "T2"}},
+		Rules:       []RuleRef{{ID: "D4"}, {ID: "T2"}, {ID: "DT"}, {ID: "N1"}, {ID: "N3"}, {ID: "E8"}, {ID: "NM"}, {ID: "RC", Scope: []string{"|get-state"}, Floor: 3}},
 	})
 	defProp(&Prop{ID: "C08", Title: "Max-memory policy",
-		Explanation: stance,
+		Explanation: stance + "Decided clauses: under noeviction every store write is preceded by the admission test, which refuses exactly when a limit is configured and usage >= limit (A1); evictions happen only at/above the limit and every eviction loop re-tests the limit before the next eviction (A2); volatile policies draw candidates only from keys with a deadline (A3); the heap comparators put the least recently / least frequently used entry first (A4); the LRU and LFU caches maintain the same bookkeeping (SB); random indices are applied to the collection that bounded them (IA); createDatabase / deleteKey / Flush cover every per-database structure and a flushed cache heap is empty (PD).",
+		Decides:     []string{"A1 admission", "A2 eviction bounds", "A3 volatile candidates", "A4 comparator orientation", "SB sibling caches", "IA index agreement", "PD per-database structures"},
+		NotCovered:  []string{"which concrete key is evicted for a given history", "the size function's figures", "timing of the asynchronous cache updates"},
+		Rules:       []RuleRef{{ID: "A1"}, {ID: "A2"}, {ID: "A3"}, {ID: "A4"}, {ID: "SB"}, {ID: "IA"}, {ID: "PD"}},
+		Tech:        "static analysis: must-facts on CFG edges, loop-cycle re-test check, abstract evaluation of comparators over {<,=,>}, field-write set comparison of sibling implementations",
 	})
 	defProp(&Prop{ID: "C09", Title: "Log rewrite",
 		Explanation: stance + "Decided clauses: the log is truncated only after, and only if, the preamble was written and synced successfully, inside one critical section of the engine mutex; the preamble bytes are the marshalled current state (D5); restore order (D7); the rewrite-in-progress indication is cleared on every exit (D8).",
-		Decides:     []string{"D5 rewrite order and critical section", "D7 restore order", "D8 start/finish pairing"},
+		Decides:     []string{"D5 rewrite order and critical section", "D7 restore order", "D8 start/finish pairing", "E8 preamble codec table", "L1 the AOF / preamble handles are used only under their store mutex", "RC preamble restore/state callbacks"},
 		NotCovered:  []string{"equality of restored datasets; interleavings beyond lock coverage"},
-		Rules:       []RuleRef{{ID: "D5"}, {ID: "D7"}, {ID: "D8", Scope: []string{"internal/aof.", "getState", "handleCommand"}, Floor: 3}},
+		Rules: []RuleRef{{ID: "D5"}, {ID: "D7"}, {ID: "D8", Scope: []string{"internal/aof.", "getState", "handleCommand"}, Floor: 3}, {ID: "E8"},
+			{ID: "L1", Scope: []string{"internal/aof", "preamble.Store", "log.Store"}, Floor: 4}, {ID: "RC", Scope: []string{"|set-key-data", "|get-state"}, Floor: 4}},
 	})
 	defProp(&Prop{ID: "C10", Title: "Snapshots are crash-atomic",
 		Explanation: stance + "Decided by a typestate over the file operations of TakeSnapshot: the manifest at its final path is replaced only after the new state file was written and fsynced successfully, by an atomic rename of a temporary that was written, fsynced and closed; no failure / nothing-new return is preceded by a manifest replacement or a last-save update; LASTSAVE is published only after the manifest is in place; writer and reader build the same paths (D6); the snapshot-in-progress indication is cleared on every exit (D8).",
@@ -118,8 +132,19 @@ func init() {
 		},
 	})
 	defProp(&Prop{ID: "C18", Title: "Pub/Sub", Explanation: stance})
-	defProp(&Prop{ID: "C19", Title: "Reported memory usage", Explanation: stance})
-	defProp(&Prop{ID: "C20", Title: "Logical databases", Explanation: stance})
+	defProp(&Prop{ID: "C19", Title: "Reported memory usage",
+		Explanation: stance + "Decided clauses: the memory counter is written only by the functions that add/replace/remove/clear store entries (M1); each such function pairs the store mutation with the matching adjustment: += new size and -= replaced size on writes, -= on removal, -= all on clear (M2); handlers that grow or shrink a stored object in place, which the counter cannot follow, are inventoried (P3).",
+		Decides:     []string{"M1 accounting ownership", "M2 accounting pairing", "P3 in-place mutators (reported per handler)"},
+		NotCovered:  []string{"the size function's figures", "equality of the figure with a fresh instance holding the same dataset (value-level)"},
+		Rules:       []RuleRef{{ID: "M1"}, {ID: "M2"}, {ID: "P3"}},
+	})
+	defProp(&Prop{ID: "C20", Title: "Logical databases",
+		Explanation: stance + "Decided clauses: every read of the request's database from the context is reached only with contexts that carry it (N1); every index into a per-database structure is the request's database, a loop variable over the databases or a parameter (N2); the database travels unchanged into the AOF append, the replicated request, the FSM's handler context and the AOF replay (D2 e, N3); the AOF writer logs a SELECT marker before a command for another database (D3); the maintenance functions cover every per-database structure (PD).",
+		Decides:     []string{"N1 context must-keys", "N2 per-database indexing", "N3 + D2(e) database identity across AOF / raft", "D3 SELECT marker", "PD per-database structures"},
+		NotCovered:  []string{"FLUSHDB vs FLUSHALL argument choice, SWAPDB semantics (value-level)", "behaviour across restarts"},
+		Rules: []RuleRef{{ID: "N1"}, {ID: "N2"}, {ID: "N3"}, {ID: "D2", Scope: []string{"|e:log-database"}, Floor: 1},
+			{ID: "D3", Scope: []string{"select-marker", "current-database"}, Floor: 2}, {ID: "D7", Scope: []string{"replay-database"}, Floor: 1}, {ID: "PD", Not: []string{"heap-emptied"}, Floor: 12}},
+	})
 }
 
 // NotApplicableReason is used for unclaimed properties in MANIFEST.json.
